@@ -67,7 +67,11 @@ def gen_history(i, naddr, nverp):
     raw = rm.gen_config(rng)
     stages = [(raw["locals"], raw["vdoms"])]
     for _ in range(rng.choice([0, 1, 1, 2])):
-        stages.append(rm.gen_maps(rng, raw["names"] + [raw["me"]]))
+        if rng.random() < 0.6:
+            # a small edit of what the daemon has loaded (same-length rename, value change, append, delete, swap)
+            stages.append(rm.edit_maps(rng, stages[-1], raw["names"] + [raw["me"]])[:2])
+        else:
+            stages.append(rm.gen_maps(rng, raw["names"] + [raw["me"]]))
     files = []
     for k, maps in enumerate(stages):
         r2 = dict(raw, locals=maps[0], vdoms=maps[1])
@@ -86,6 +90,10 @@ def gen_history(i, naddr, nverp):
             ops.append(("H", k, None))
         for a in rm.gen_addresses(rng, raw, per, extra_maps=stages):
             ops.append(("A", k, a))
+        for j in range(1, len(stages)):
+            # and addresses aimed at exactly what a HUP stage changed, asked in every stage
+            for a in rm.changed_addresses(rng, stages[j - 1], stages[j]):
+                ops.append(("A", k, a))
         for s, r in rm.gen_verp(rng, raw, nverp // len(stages) + 1):
             ops.append(("S", k, (s, r)))
     return raw, stages, files, ops
@@ -347,7 +355,9 @@ def daemon_history(b, home, i, res):
     """one history; returns False when it could not be driven (inconclusive, retried once)"""
     rng = core.case_rng(PROP, i, "daemon")
     raw = rm.gen_config(rng)
-    stages = [(raw["locals"], raw["vdoms"]), rm.gen_maps(rng, raw["names"] + [raw["me"]])]
+    stages = [(raw["locals"], raw["vdoms"])]
+    stages.append(rm.edit_maps(rng, stages[0], raw["names"] + [raw["me"]])[:2] if rng.random() < 0.6
+                  else rm.gen_maps(rng, raw["names"] + [raw["me"]]))
     cfg0 = rm.to_config(raw)
     cfgs = [cfg0, cfg0.after_hup(*stages[1])]
     files = rm.control_files(rng, raw)
@@ -359,7 +369,7 @@ def daemon_history(b, home, i, res):
 
     def make(stage, k):
         n = rng.choice([1, 2, 5, 12, 40, 150])
-        rc = [a for a in rm.gen_addresses(rng, raw, n, extra_maps=stages)
+        rc = [a for a in rm.gen_addresses(rng, raw, n, extra_maps=stages) + rm.changed_addresses(rng, stages[0], stages[1])
               if all(rm.rewrite(a, c) is not None for c in cfgs)]
         if not rc:
             rc = [b"user@" + raw["names"][0]]
